@@ -415,6 +415,7 @@ fn symmetric_backgrounds() -> Vec<BgSpec> {
         BgSpec::New(vec![0.125, 0.375, 0.125, 0.375, 0.0]),
         BgSpec::New(vec![0.25, 0.125, 0.25, 0.125, 0.25]), // non-zero wildcard
         BgSpec::New(vec![0.0, 0.5, 0.0, 0.5, 0.0]),        // A = T = 0
+        BgSpec::New(vec![0.5, 0.0, 0.5, 0.0, 0.0]),        // C = G = 0 (a zero column BETWEEN the two non-zero ones)
         BgSpec::FromCounts(vec![3, 2, 3, 2, 0]),           // (.3,.2,.3,.2,0), not dyadic
     ]
 }
@@ -423,8 +424,8 @@ const INVOLUTION_DESC: &str = "product: every DNA count matrix of width 1..=4 ov
     on each point the count, frequency, weight and scoring matrix: rc(rc(m)) == m (cells bit-for-bit, PartialEq, background, sequence count) and rc(m) == rows reversed + columns permuted by A<->T, C<->G, N<->N. \
     one evaluation = one matrix kind of one point; non-trivial = rc changes the count matrix (so the identity function would be caught). Frequency/weight/scoring matrices of points with a 0/0 row (NaN) are skipped";
 
-const COMMUTATION_DESC: &str = "product: the same 2800 count matrices x 5 strand-symmetric pseudocount specs (0, 0.1, 1, (.1,.2,.1,.2,.3), wildcard-only) x 5 strand-symmetric backgrounds (uniform, (.125,.375,.125,.375,0), \
-    non-zero wildcard, A=T=0, from_counts(3,2,3,2,0)); five commutation identities per point: to_freq (allowance 2*gamma_{K+2} for the row-sum order), to_weight, FrequencyMatrix::to_scoring, WeightMatrix::to_scoring (bit-identical), \
+const COMMUTATION_DESC: &str = "product: the same 2800 count matrices x 5 strand-symmetric pseudocount specs (0, 0.1, 1, (.1,.2,.1,.2,.3), wildcard-only) x 6 strand-symmetric backgrounds (uniform, (.125,.375,.125,.375,0), \
+    non-zero wildcard, A=T=0, C=G=0, from_counts(3,2,3,2,0)); five commutation identities per point: to_freq (allowance 2*gamma_{K+2} for the row-sum order), to_weight, FrequencyMatrix::to_scoring, WeightMatrix::to_scoring (bit-identical), \
     and the whole count->score chain (derived tolerance). non-trivial = point in the domain (no 0/0 row) and rc changes the count matrix";
 
 fn run_matrix_level(ctx: &mut Ctx, rep: &mut Report, index: &mut u64) {
